@@ -31,7 +31,8 @@ RULE = ("cases: (pipeline, k, n, file/segment bytes, ordered list of k distinct 
         "in-process grid, 3-of-256, 2-of-255 and 3-of-10 in every run (thorough adds 1/2/255/256-of-256, 7-of-255, 16-of-64, 5-of-129), "
         "then for a few k-subsets (k highest, k lowest, spread, seeded) only those shares are left on the servers and a fresh node "
         "downloads.  CRSEncoder.encode(desired_share_ids = seeded subsets in seeded order) against the full encode, decoded twice "
-        "with the same list objects.  Plus codec parameter and splitting/padding/"
+        "with the same list objects.  Repair: a file > 1 MiB uploaded with max segment size 128 KiB (thorough: also 2 MiB and others), all but k shares "
+        "deleted, real repairer, then downloads from k-subsets of remade-only / original-only / mixed shares.  Plus codec parameter and splitting/padding/"
         "trimming cases compared with the Coq model (data_size 0..3k+2 and around multiples of k, k in {1,2,3,7,16,100,255,256}).")
 META = {
     "title": "Erasure coding recovers from any k blocks",
@@ -491,8 +492,89 @@ def oracle_desired(ctx):
         ctx.case(("desired", k, n, tuple(desired), data), kind="codec-desired-ids")
 
 
+def repair_file(ctx, k, n, size, max_seg, seed, keep, subsets=None, servers=None):
+    """Upload a multi-segment file with a NON-default maximum segment size, delete all shares but `keep`,
+    let the real repairer remake the others, then download from k-subsets made of remade shares only,
+    original shares only, and a mixture: the shares a successful repair produced are shares of the file."""
+    import random
+    from core import grid as G
+    from allmydata.monitor import Monitor
+    servers = servers or n
+    data = random.Random(size * 31 + k * 7 + n).randbytes(size)
+    base = {"pipeline": "repair", "k": k, "n": n, "size": size, "max_segment_size": max_seg, "seed": seed, "keep": sorted(keep), "servers": servers}
+    results = []
+    with G.Grid(num_servers=servers, k=k, n=n, happy=1, max_segment_size=max_seg, seed=seed, timeout=180) as g:
+        out = g.run(lambda: g.upload(data, convergence=b"C36r"), outcome=True)
+        ctx.case(("repair-up", k, n, size, max_seg), kind="repair-upload")
+        if out.status != "ok":
+            ctx.oracle_fail("erasure-grid-upload-fails", "%d-of-%d upload of %d bytes fails: %s %s" % (k, n, size, out.status, out.error), case=dict(base, subset=None))
+            return [("upload", out.status, out.error)]
+        cap = out.value
+        for sh in g.find_shares(cap):
+            if sh.shnum not in keep:
+                g.delete_share(sh)
+        rep = g.run(lambda: g.node(cap).check_and_repair(Monitor(), verify=False), outcome=True)
+        shares = g.find_shares(cap)
+        present = sorted(set(sh.shnum for sh in shares))
+        ok = rep.status == "ok" and rep.value.get_repair_attempted() and rep.value.get_repair_successful() and present == list(range(n))
+        ctx.case(("repair", k, n, size, max_seg, tuple(sorted(keep))) if ok else None, kind="repair-done" if ok else "repair-not-successful")
+        if not ok:
+            # a repair that does not claim success promises nothing about new shares (C45's subject)
+            ctx.count("repair-not-successful")
+            return [("repair", rep.status, rep.error, present)]
+        remade = [i for i in range(n) if i not in keep]
+        if subsets is None:
+            r = random.Random(seed)
+            subsets = []
+            if len(remade) >= k:
+                subsets.append(sorted(r.sample(remade, k)))
+            subsets.append(sorted(r.sample(sorted(keep), k)))
+            if k >= 2 and remade:
+                subsets.append(sorted([r.choice(remade)] + r.sample(sorted(keep), k - 1)))
+                subsets.append(sorted(r.sample(remade, min(k - 1, len(remade))) + r.sample(sorted(keep), k - min(k - 1, len(remade)))))
+            elif remade:
+                subsets.append([r.choice(remade)])
+        saved = {sh: g.read_share(sh) for sh in shares}
+        seen = []
+        for sub in subsets:
+            if sub in seen:
+                continue
+            seen.append(sub)
+            for sh, raw in saved.items():
+                if sh.shnum in sub:
+                    g.write_share(sh, raw)
+                elif os.path.exists(sh.path):
+                    g.delete_share(sh)
+            case = dict(base, subset=list(sub))
+            ctx.case(("repair-dl", k, n, size, max_seg, tuple(sorted(keep)), tuple(sub)), kind="repair-download")
+            o2 = g.run(lambda: g.download(cap), outcome=True)
+            which = ["remade" if i in remade else "original" for i in sub]
+            if o2.status != "ok":
+                ctx.oracle_fail("erasure-repaired-shares-do-not-decode",
+                                "%d-of-%d file of %d bytes (max segment %d), repaired from shares %r (repair reported success, %d shares present): with only shares %r (%s) "
+                                "left on the servers the download fails: %s %s" % (k, n, size, max_seg, sorted(keep), n, list(sub), "/".join(which), o2.status, o2.error),
+                                case=case, observed=str(o2.failure)[-500:] if o2.failure else o2.hung_info)
+            elif o2.value != data:
+                ctx.oracle_fail("erasure-decode-wrong-bytes", "%d-of-%d repaired file, shares %r (%s): downloaded bytes differ" % (k, n, list(sub), "/".join(which)), case=case)
+            results.append((list(sub), o2.status, o2.error))
+    return results
+
+
+def oracle_repair(ctx):
+    """Files larger than the downloader's default maximum segment size (1 MiB) uploaded with another maximum."""
+    plan = [(2, 4, 1048576 + 37, 131072, [0, 3])]
+    if ctx.tier == "thorough" or ctx.search:
+        plan += [(3, 5, 1048576 + 5, 2 * 1048576, [1, 2, 4]), (1, 3, 1048576 + 1, 131072, [2]), (3, 10, 1300000, 131072, [0, 4, 9]),
+                 (2, 4, 300000, 4096 * 2, [1, 2])]
+    for i, (k, n, size, max_seg, keep) in enumerate(plan):
+        repair_file(ctx, k, n, size, max_seg, ctx.rng("repair", i).getrandbits(20), set(keep))
+
+
 def replay(ctx, record):
     case = record.get("case") or {}
+    if case.get("pipeline") == "repair":
+        return repair_file(ctx, case["k"], case["n"], case["size"], case["max_segment_size"], case["seed"], set(case["keep"]),
+                           subsets=[case["subset"]] if case.get("subset") else None, servers=case.get("servers"))
     if case.get("pipeline") == "codec-desired":
         return desired_case(ctx, case)
     if case.get("pipeline") == "grid":
@@ -884,6 +966,7 @@ def run(ctx):
     oracle_corpus(ctx)
     oracle_exhaustive(ctx)
     oracle_grid(ctx)
+    oracle_repair(ctx)
     oracle_desired(ctx)
     oracle_seeded(ctx)
     # both correspondences are evaluated by one round of coqc shards
